@@ -162,10 +162,18 @@ def do_op(w, op, step):
         w.mgr1.cleanup()
         return ("ok",)
     if op == "mw":
-        it = w.mgr.make_middleware(_noop_app)({}, lambda *a: None)
+        # a WSGI app that stores request data in the locals; the manager's middleware must release them (in this
+        # context only) when the response iterable is closed
+        def app(environ, start_response):
+            w.local.x = Box(step)
+            w.stack.push(Box(step))
+            return [b"x"]
+
+        it = w.mgr.make_middleware(app)({}, lambda *a: None)
         body = list(it)
+        seen = (w.local.x.tag, w.stack.top.tag)   # still bound while the response is being sent
         it.close()
-        return ("ok", len(body))
+        return ("ok", len(body), seen)
     if op == "cvset":
         w.cv.set(Box(step))
         return ("ok",)
@@ -311,7 +319,7 @@ class Model:
         if op == "mw":
             st["local"] = {}
             st["stack"] = ()
-            return ("ok", 1)
+            return ("ok", 1, (step, step))
         if op == "cvset":
             st["cv"] = self._new(step)
             return ("ok",)
@@ -886,7 +894,8 @@ def _plan(tier):
     else:
         for t in topos:
             plan.append(("ctx", t, 3, "full", 4))
-            plan.append(("ctx", t, 4, "core", 4))
+            if t not in ("chain3", "empty_parent_2children"):
+                plan.append(("ctx", t, 4, "core", 4))
         plan.append(("ctx", "parent_child", 4, "main", 3))
         plan.append(("ctx", "two_roots", 4, "main", 3))
         plan.append(("ctx", "parent_child", 5, "tiny", 3))
